@@ -212,3 +212,187 @@ theorem checkLen_coded (m n : Nat) : checkLen m n ≠ .error .lowLevel := by
   unfold checkLen; split <;> simp
 
 end Dds
+
+namespace Dds
+
+mutual
+theorem ddsHash_err (m : Nat) : ∀ (v : PyVal) (e : HashErr), ddsHash m v = .error e → e ≠ .lowLevel
+  | .none, e, h => by simp [ddsHash] at h
+  | .str _, e, h => by simp [ddsHash] at h
+  | .float _, e, h => by simp [ddsHash] at h
+  | .bool _, e, h => by simp only [ddsHash] at h; intro he; subst he; exact hashInt_coded _ h
+  | .int _, e, h => by simp only [ddsHash] at h; intro he; subst he; exact hashInt_coded _ h
+  | .cpath _, e, h => by simp [ddsHash] at h
+  | .ppath _, e, h => by simp [ddsHash] at h
+  | .temporal _, e, h => by simp [ddsHash] at h
+  | .unsupported _, e, h => by simp [ddsHash] at h; subst h; simp
+  | .list xs, e, h => by
+      simp only [ddsHash] at h
+      rcases bind_err h with h | ⟨_, _, h⟩
+      · intro he; subst he; exact checkLen_coded _ _ h
+      · rcases bind_err h with h | ⟨_, _, h⟩
+        · exact ddsHashL_err m xs e h
+        · simp [pure, Except.pure] at h
+  | .tuple xs, e, h => by
+      simp only [ddsHash] at h
+      rcases bind_err h with h | ⟨_, _, h⟩
+      · intro he; subst he; exact checkLen_coded _ _ h
+      · rcases bind_err h with h | ⟨_, _, h⟩
+        · exact ddsHashL_err m xs e h
+        · simp [pure, Except.pure] at h
+  | .dict xs, e, h => by
+      simp only [ddsHash] at h
+      rcases bind_err h with h | ⟨_, _, h⟩
+      · intro he; subst he; exact checkLen_coded _ _ h
+      · rcases bind_err h with h | ⟨_, _, h⟩
+        · exact ddsHashKV_err m xs e h
+        · simp [pure, Except.pure] at h
+  | .odict xs, e, h => by
+      simp only [ddsHash] at h
+      rcases bind_err h with h | ⟨_, _, h⟩
+      · intro he; subst he; exact checkLen_coded _ _ h
+      · rcases bind_err h with h | ⟨_, _, h⟩
+        · exact ddsHashKV_err m xs e h
+        · simp [pure, Except.pure] at h
+  | .dc xs, e, h => by
+      simp only [ddsHash] at h
+      rcases bind_err h with h | ⟨_, _, h⟩
+      · intro he; subst he; exact checkLen_coded _ _ h
+      · rcases bind_err h with h | ⟨_, _, h⟩
+        · exact ddsHashF_err m xs e h
+        · simp [pure, Except.pure] at h
+theorem ddsHashL_err (m : Nat) : ∀ (xs : List PyVal) (e : HashErr), ddsHashL m xs = .error e → e ≠ .lowLevel
+  | [], e, h => by simp [ddsHashL] at h
+  | x :: xs, e, h => by
+      simp only [ddsHashL] at h
+      rcases bind_err h with h | ⟨_, _, h⟩
+      · exact ddsHash_err m x e h
+      · rcases bind_err h with h | ⟨_, _, h⟩
+        · exact ddsHashL_err m xs e h
+        · simp [pure, Except.pure] at h
+theorem ddsHashKV_err (m : Nat) : ∀ (xs : List (PyVal × PyVal)) (e : HashErr), ddsHashKV m xs = .error e → e ≠ .lowLevel
+  | [], e, h => by simp [ddsHashKV] at h
+  | (k, v) :: xs, e, h => by
+      simp only [ddsHashKV] at h
+      rcases bind_err h with h | ⟨_, _, h⟩
+      · exact ddsHash_err m k e h
+      · rcases bind_err h with h | ⟨_, _, h⟩
+        · exact ddsHash_err m v e h
+        · rcases bind_err h with h | ⟨_, _, h⟩
+          · exact ddsHashKV_err m xs e h
+          · simp [pure, Except.pure] at h
+theorem ddsHashF_err (m : Nat) : ∀ (xs : List (String × PyVal)) (e : HashErr), ddsHashF m xs = .error e → e ≠ .lowLevel
+  | [], e, h => by simp [ddsHashF] at h
+  | (n, v) :: xs, e, h => by
+      simp only [ddsHashF] at h
+      rcases bind_err h with h | ⟨_, _, h⟩
+      · exact ddsHash_err m v e h
+      · rcases bind_err h with h | ⟨_, _, h⟩
+        · exact ddsHashF_err m xs e h
+        · simp [pure, Except.pure] at h
+end
+
+theorem ddsHash_coded (m : Nat) (v : PyVal) : ddsHash m v ≠ .error .lowLevel :=
+  fun h => ddsHash_err m v _ h rfl
+
+/-! ### packed numbers -/
+def decodeBE : List UInt8 → Nat
+  | [] => 0
+  | b :: bs => b.toNat * 256 ^ bs.length + decodeBE bs
+
+theorem beBytes_length (k n : Nat) : (beBytes k n).length = k := by
+  induction k generalizing n with
+  | zero => simp [beBytes]
+  | succ k ih => simp [beBytes, ih]
+
+theorem decodeBE_append_single (xs : List UInt8) (b : UInt8) :
+    decodeBE (xs ++ [b]) = decodeBE xs * 256 + b.toNat := by
+  induction xs with
+  | nil => simp [decodeBE]
+  | cons x xs ih =>
+    simp only [List.cons_append, decodeBE, ih, List.length_append, List.length_cons, List.length_nil]
+    rw [Nat.pow_succ, Nat.add_mul, Nat.mul_assoc]
+    omega
+
+theorem decodeBE_beBytes (k n : Nat) : decodeBE (beBytes k n) = n % 256 ^ k := by
+  induction k generalizing n with
+  | zero => simp [beBytes, decodeBE, Nat.mod_one]
+  | succ k ih =>
+    simp only [beBytes, decodeBE_append_single, ih]
+    have : (UInt8.ofNat (n % 256)).toNat = n % 256 := by simp
+    rw [this, Nat.pow_succ, Nat.mul_comm (256 ^ k) 256, Nat.mod_mul]
+    omega
+
+theorem beBytes_inj (k a b : Nat) (ha : a < 256 ^ k) (hb : b < 256 ^ k) (h : beBytes k a = beBytes k b) : a = b := by
+  have := congrArg decodeBE h
+  rwa [decodeBE_beBytes, decodeBE_beBytes, Nat.mod_eq_of_lt ha, Nat.mod_eq_of_lt hb] at this
+
+theorem pack4_inj (i j : Int) (hi : inInt32 i = true) (hj : inInt32 j = true) (h : pack4 i = pack4 j) : i = j := by
+  unfold inInt32 at hi hj
+  simp only [Bool.and_eq_true, decide_eq_true_eq] at hi hj
+  unfold pack4 at h
+  have h1 := beBytes_inj 4 _ _ (by omega) (by omega) h
+  omega
+
+theorem pack8_inj (x y : UInt64) (h : pack8 x = pack8 y) : x = y := by
+  unfold pack8 at h
+  have hx := x.toNat_lt; have hy := y.toNat_lt
+  have h1 := beBytes_inj 8 _ _ (by omega) (by omega) h
+  exact UInt64.toNat_inj.mp h1
+
+theorem ddsHash_float_inj (m : Nat) (x y : UInt64) (h : ddsHash m (.float x) = ddsHash m (.float y)) : x = y := by
+  simp only [ddsHash, hBytes, Except.ok.injEq, Sg.H.injEq] at h
+  exact pack8_inj _ _ (litPart_inj h)
+
+theorem ddsHash_int_inj (m : Nat) (i j : Int) (hi : inInt32 i = true) (hj : inInt32 j = true)
+    (h : ddsHash m (.int i) = ddsHash m (.int j)) : i = j := by
+  simp only [ddsHash, hashInt, hi, hj, if_true, hBytes, Except.ok.injEq, Sg.H.injEq] at h
+  exact pack4_inj _ _ hi hj (litPart_inj h)
+
+def hexVal (c : Char) : Nat := if c.toNat ≥ 97 then c.toNat - 87 else c.toNat - 48
+theorem hexVal_digitChar (d : Nat) (h : d < 16) : hexVal d.digitChar = d := by
+  have : d = 0 ∨ d = 1 ∨ d = 2 ∨ d = 3 ∨ d = 4 ∨ d = 5 ∨ d = 6 ∨ d = 7 ∨ d = 8 ∨ d = 9 ∨ d = 10 ∨ d = 11 ∨ d = 12 ∨ d = 13 ∨ d = 14 ∨ d = 15 := by omega
+  rcases this with h|h|h|h|h|h|h|h|h|h|h|h|h|h|h|h <;> subst h <;> decide
+def decodeHex (cs : List Char) : Nat := cs.foldl (fun acc c => acc * 16 + hexVal c) 0
+theorem decodeHex_toDigits (n : Nat) : decodeHex (Nat.toDigits 16 n) = n := by
+  induction n using Nat.strongRecOn with
+  | _ n ih =>
+    rw [Nat.toDigits_eq_if (by decide)]
+    split
+    · simp [decodeHex, hexVal_digitChar _ ‹_›]
+    · rename_i h
+      have := ih (n / 16) (by omega)
+      simp only [decodeHex, List.foldl_append, List.foldl_cons, List.foldl_nil] at this ⊢
+      rw [this, hexVal_digitChar _ (Nat.mod_lt _ (by decide))]
+      omega
+theorem toDigits16_inj (a b : Nat) (h : Nat.toDigits 16 a = Nat.toDigits 16 b) : a = b := by
+  have := congrArg decodeHex h
+  rwa [decodeHex_toDigits, decodeHex_toDigits] at this
+theorem intRepr_inj (i j : Int) (h : intRepr i = intRepr j) : i = j := by
+  unfold intRepr at h
+  by_cases hi : i < 0 <;> by_cases hj : j < 0 <;> simp only [hi, hj, if_true, if_false] at h
+  · have := toDigits16_inj _ _ (String.ofList_injective ((String.append_right_inj _).mp h)); omega
+  · have := congrArg String.toList h; simp at this
+  · have := congrArg String.toList h; simp at this
+  · have := toDigits16_inj _ _ (String.ofList_injective ((String.append_right_inj _).mp h)); omega
+
+theorem ddsHash_bigint_inj (m : Nat) (i j : Int) (hi : inInt32 i = false) (hj : inInt32 j = false)
+    (h : ddsHash m (.int i) = ddsHash m (.int j)) : i = j := by
+  simp only [ddsHash, hashInt, hi, hj, hStr, Bool.false_eq_true, if_false, Except.ok.injEq, Sg.H.injEq] at h
+  have := utf8_inj (litPart_inj h)
+  exact intRepr_inj _ _ ((String.append_right_inj _).mp this)
+
+theorem utf8_append (a b : String) : utf8 (a ++ b) = utf8 a ++ utf8 b := by
+  simp [utf8, String.toUTF8]
+theorem pack4_length (i : Int) : (pack4 i).length = 4 := beBytes_length _ _
+theorem ddsHash_int_bigint_ne (m : Nat) (i j : Int) (hi : inInt32 i = true) (hj : inInt32 j = false) :
+    ddsHash m (.int i) ≠ ddsHash m (.int j) := by
+  simp only [ddsHash, hashInt, hi, hj, hStr, hBytes, ne_eq, Bool.false_eq_true, if_false, if_true, Except.ok.injEq, Sg.H.injEq]
+  intro h
+  have h2 := congrArg List.length (litPart_inj h)
+  rw [pack4_length, utf8_append] at h2
+  have : (utf8 "__DDS_INT__").length = 11 := by decide +kernel
+  simp [this] at h2
+  omega
+
+end Dds
